@@ -1462,7 +1462,7 @@ def mask_chunks(n, size):
 
 def run(ctx):
     quick = ctx.tier == "quick"
-    wall = WALL[ctx.tier]
+    wall = max(WALL[ctx.tier], ctx.budget)  # the run-wide budget (VERIF_BUDGET_S) governs; WALL is the floor of the first build
 
     def left():
         return min(ctx.time_left(), wall - ctx.elapsed())
